@@ -541,7 +541,12 @@ func (sf *SnowflakeProxy) runSession(sid string) {
 		if inerr := pc.Close(); inerr != nil {
 			log.Printf("error calling pc.Close: %v", inerr)
 		}
-		tokens.ret()
+		// The client may have got the answer all the same (only the
+		// broker's response to us was lost) and opened the data channel
+		// meanwhile, in which case the handler owns the token.
+		if atomic.CompareAndSwapInt32(&claimed, 0, 1) {
+			tokens.ret()
+		}
 		return
 	}
 	// Set a timeout on peerconnection. If the connection state has not
